@@ -114,6 +114,147 @@ fn base_programs(thorough: bool) -> Vec<(String, Program)> {
     v
 }
 
+/// programs written as text, with marked sites: `{{R}}` before the last expression of a function body (nothing, or
+/// `ret `) and `{{K f|args}}` for a call (f(args), f' args, args -> f(), args -> f'). They hold what the core AST of
+/// the families cannot: inferred return types, early `ret` of a value that says less than the trailing expression
+/// (payload-less variant of a generic enum, empty list), closures returning closures, and ill-typed programs - every
+/// choice at every site must be accepted with the same Lua as the plain form, or every choice rejected.
+const TEXT_BASES: &[(&str, &str)] = &[
+    (
+        "early-ret-of-payloadless-variant-inferred-return",
+        "Opt :: enum(*T)\n    Some *T,\n    Non,\nend\ninc :: fn x: int -> int do\n    {{R}}x + 1\nend\nhandler :: fn enabled: bool -> do\n    if not enabled do\n        ret Opt.Non\n    end\n    {{R}}Opt.Some inc\nend\nstart :: fn do\n    h :: {{K handler|true}}\n    case h do\n        Some f -> print({{K f|41}}) end\n        Non -> print(0) end\n    end\nend\n",
+    ),
+    (
+        "early-ret-of-empty-list-inferred-return",
+        "takes :: fn l: [int] -> int do\n    {{R}}7\nend\nfs :: fn n: int -> do\n    if n < 0 do\n        ret []\n    end\n    {{R}}[n, 2]\nend\nstart :: fn do\n    g :: {{K fs|1}}\n    print(g == [1, 2])\n    print({{K takes|g}})\nend\n",
+    ),
+    (
+        "ill-typed-early-int-trailing-str-annotated",
+        "sign :: fn n: int -> int do\n    if n < 0 do\n        ret -1\n    end\n    {{R}}\"not negative\"\nend\nstart :: fn do\n    print({{K sign|3}} + 1)\nend\n",
+    ),
+    (
+        "ill-typed-early-int-trailing-str-inferred",
+        "sign :: fn n: int -> do\n    if n < 0 do\n        ret -1\n    end\n    {{R}}\"not negative\"\nend\nstart :: fn do\n    print({{K sign|3}})\nend\n",
+    ),
+    (
+        "closure-returning-closure-with-early-ret",
+        "Opt :: enum(*T)\n    Some *T,\n    Non,\nend\ninc :: fn x: int -> int do\n    x + 1\nend\nmk :: fn k: int -> do\n    {{R}}fn q: int -> do\n        if q > k do\n            ret (q, Opt.Non)\n        end\n        {{R}}(k, Opt.Some inc)\n    end\nend\nstart :: fn do\n    c :: {{K mk|3}}\n    print({{K c|5}}[0])\n    case {{K c|2}}[1] do\n        Some f -> print({{K f|1}}) end\n        else do end\n    end\nend\n",
+    ),
+    (
+        "ill-typed-payload-called-with-the-wrong-argument",
+        "Opt :: enum(*T)\n    Some *T,\n    Non,\nend\ninc :: fn x: int -> int do\n    x + 1\nend\nhandler :: fn enabled: bool -> do\n    if not enabled do\n        ret Opt.Non\n    end\n    {{R}}Opt.Some inc\nend\nstart :: fn do\n    case {{K handler|true}} do\n        Some f -> print({{K f|\"s\"}}) end\n        Non -> print(0) end\n    end\nend\n",
+    ),
+    (
+        "function-in-a-blob-field-with-early-ret",
+        "B :: blob {\n    f: fn int -> int,\n}\nstart :: fn do\n    b :: B { f: fn x: int -> int do\n        if x < 0 do\n            ret 0\n        end\n        {{R}}x * 2\n    end }\n    print({{K b.f|4}})\n    print({{K b.f|0 - 4}})\nend\n",
+    ),
+    (
+        "inferred-return-of-a-recursive-function",
+        "fact :: fn n: int -> do\n    if n < 2 do\n        ret 1\n    end\n    {{R}}n * {{K fact|n - 1}}\nend\nstart :: fn do\n    print({{K fact|5}})\nend\n",
+    ),
+    (
+        "early-ret-of-tuple-with-unknown-parts",
+        "Opt :: enum(*T)\n    Some *T,\n    Non,\nend\nexcl :: fn s: str -> str do\n    {{R}}s + \"!\"\nend\npick :: fn n: int -> do\n    if n == 0 do\n        ret (0, Opt.Non, Opt.Non)\n    end\n    {{R}}(n, Opt.Some \"s\", Opt.Some excl)\nend\nstart :: fn do\n    t :: {{K pick|2}}\n    case t[1] do\n        Some s -> do\n            case t[2] do\n                Some f -> print({{K f|s}}) end\n                else do end\n            end\n        end\n        Non -> print(t[0]) end\n    end\nend\n",
+    ),
+    (
+        "ill-typed-two-early-rets-disagree-with-the-tail",
+        "kind :: fn n: int -> do\n    if n < 0 do\n        ret (1, 2)\n    end\n    if n == 0 do\n        ret (0, 0)\n    end\n    {{R}}(1, \"s\")\nend\nstart :: fn do\n    print({{K kind|3}})\nend\n",
+    ),
+];
+
+fn expand_text_base(template: &str) -> Vec<(String, String)> {
+    // sites in order of appearance
+    let mut parts: Vec<(String, Option<(bool, String, String)>)> = Vec::new();
+    let mut rest = template;
+    while let Some(i) = rest.find("{{") {
+        let j = rest[i..].find("}}").unwrap() + i;
+        let inner = &rest[i + 2..j];
+        let site = if inner == "R" {
+            (true, String::new(), String::new())
+        } else {
+            let body = inner.strip_prefix("K ").unwrap();
+            let (f, a) = body.split_once('|').unwrap();
+            (false, f.to_string(), a.to_string())
+        };
+        parts.push((rest[..i].to_string(), Some(site)));
+        rest = &rest[j + 2..];
+    }
+    parts.push((rest.to_string(), None));
+    let radices: Vec<usize> = parts.iter().filter_map(|(_, s)| s.as_ref().map(|s| if s.0 { 2 } else { 4 })).collect();
+    let total: usize = radices.iter().product();
+    let mut out = Vec::new();
+    for code in 0..total {
+        let mut c = code;
+        let mut text = String::from("print: fn *X -> void : external\n");
+        let mut desc = String::new();
+        for (pre, site) in &parts {
+            text.push_str(pre);
+            if let Some((is_ret, f, a)) = site {
+                let r = if *is_ret { 2 } else { 4 };
+                let k = c % r;
+                c /= r;
+                if *is_ret {
+                    text.push_str(if k == 1 { "ret " } else { "" });
+                    desc.push(if k == 1 { 'r' } else { '-' });
+                } else {
+                    match k {
+                        0 => text.push_str(&format!("{}({})", f, a)),
+                        1 => text.push_str(&format!("({}' {})", f, a)),
+                        2 => text.push_str(&format!("(({}) -> {}())", a, f)),
+                        _ => text.push_str(&format!("(({}) -> {}')", a, f)),
+                    }
+                    desc.push(['p', '\'', '>', '}'][k]);
+                }
+            }
+        }
+        out.push((desc, text));
+    }
+    out
+}
+
+fn text_bases_family(acc: &mut Stats) {
+    for (name, template) in TEXT_BASES {
+        let forms = expand_text_base(template);
+        let (_, plain) = &forms[0];
+        let canon = match compile_src(plain) {
+            Outcome::Ok(b) => Some(renumber(&mask_lines(&b))),
+            _ => None,
+        };
+        acc.states += 1;
+        acc.nontrivial(fnv(plain.as_bytes()));
+        acc.outcome(if canon.is_some() { "text-base:plain-form-accepted" } else { "text-base:plain-form-rejected" });
+        for (desc, text) in forms.iter().skip(1) {
+            acc.evaluations += 1;
+            acc.transitions += 1;
+            let out = compile_src(text);
+            let fail: Option<(&str, String)> = match (&canon, &out) {
+                (Some(c), Outcome::Ok(b)) => {
+                    if &renumber(&mask_lines(b)) == c { None } else { Some(("sugar-changes-lua", "emitted Lua differs (after renumbering of V/L names)".to_string())) }
+                }
+                (Some(_), Outcome::Err { errs, .. }) => Some(("sugar-variant-rejected", errs.first().map(|e| e.dbg.clone()).unwrap_or_default())),
+                (None, Outcome::Ok(_)) => Some(("sugar-variant-accepted-but-plain-form-rejected", String::new())),
+                (None, Outcome::Err { .. }) => None,
+                (_, Outcome::Panic { msg, .. }) => Some(("panic", msg.clone())),
+            };
+            match fail {
+                None => acc.outcome(if canon.is_some() { "text-base:same-lua" } else { "text-base:rejected-like-the-plain-form" }),
+                Some((sig, detail)) => {
+                    acc.outcome(sig);
+                    let mut files = serde_json::Map::new();
+                    files.insert(MAIN.to_string(), json!(text));
+                    acc.fail(Failure {
+                        sig: sig.into(),
+                        preds: vec![format!("text-base:{}", name)],
+                        detail: format!("text base {} with sites [{}] (r = ret, - = trailing expression, p ' > }} = call styles):\n{}\n{}\nplain form:\n{}", name, desc, text, detail, plain),
+                        case: json!({"engine": "c14", "files": files, "canonical": plain, "sugar": true}),
+                        size: text.len(),
+                    });
+                }
+            }
+        }
+    }
+}
+
 const STYLES: [CallStyle; 4] = [CallStyle::Paren, CallStyle::Prime, CallStyle::Arrow, CallStyle::ArrowPrime];
 
 pub fn run(run: &mut Run) {
@@ -134,6 +275,9 @@ pub fn run(run: &mut Run) {
                     ("full_parens", PrintOpts { full_parens: true, ..PrintOpts::default() }),
                     ("break_brackets", PrintOpts { break_brackets: true, ..PrintOpts::default() }),
                     ("noise", PrintOpts { layout: 2, ..PrintOpts::default() }),
+                    ("explicit_ret", PrintOpts { explicit_ret: true, ..PrintOpts::default() }),
+                    ("ret_at_every_tail_site", PrintOpts { ret_mask: Some(u64::MAX), ..PrintOpts::default() }),
+                    ("ret_at_the_first_tail_site", PrintOpts { ret_mask: Some(1), ..PrintOpts::default() }),
                 ] {
                     let text = print_with(&base, opts).text;
                     acc.evaluations += 1;
@@ -145,9 +289,11 @@ pub fn run(run: &mut Run) {
                             sig: "layout-variant-rejected".into(),
                             preds: vec![format!("variant:{}", desc)],
                             detail: format!("family {}: the canonical text is rejected but the variant [{}] is accepted\ncanonical text:\n{}\nvariant:\n{}", fam, desc, canon_text, text),
-                            case: json!({"engine": "c14", "files": files, "canonical": canon_text, "sugar": false}),
+                            case: json!({"engine": "c14", "files": files, "canonical": canon_text, "sugar": desc.contains("ret")}),
                             size: text.len(),
                         });
+                    } else {
+                        acc.outcome("rejected-base:variant-rejected-as-well");
                     }
                 }
                 return;
@@ -304,8 +450,12 @@ pub fn run(run: &mut Run) {
             acc.sample(json!({"family": fam, "canonical": canon_text, "one_layout_variant": print_with(&base, opts).text}));
         }
     });
+    let mut accs = accs;
+    let mut tb = Stats::new();
+    text_bases_family(&mut tb);
+    accs.push(tb);
     run.stats = Stats::merge_all(accs);
-    run.rule = "base programs: the statement families (short sequences), the recursion templates, expressions of size <= 1 in five call-heavy contexts and a feature-dense sample; per base every combination of 4 layout noise patterns (blank lines, comment lines, trailing comments, tab indentation) x redundant parentheses x CRLF x line breaks inside brackets (after `(`, `[`, `,`; and continuation lines that start with a binary operator or `->`) x redundant parentheses around whole values and around callees x comments after line-end separators x prime calls written bare as whole statement values (continued over lines after commas), and every call-style vector over the first k call sites (f(a), f' a, a -> f(), a -> f') x trailing expression vs ret x loop do vs loop true do, plus every per-site choice of trailing expression vs `ret e` over the first 4 function bodies that end in an expression; non-trivial = the base compiles; distinct by base text".into();
+    run.rule = "base programs: the statement families (short sequences), the recursion templates, expressions of size <= 1 in five call-heavy contexts and a feature-dense sample; per base every combination of 4 layout noise patterns (blank lines, comment lines, trailing comments, tab indentation) x redundant parentheses x CRLF x line breaks inside brackets (after `(`, `[`, `,`; and continuation lines that start with a binary operator or `->`) x redundant parentheses around whole values and around callees x comments after line-end separators x prime calls written bare as whole statement values (continued over lines after commas), and every call-style vector over the first k call sites (f(a), f' a, a -> f(), a -> f') x trailing expression vs ret x loop do vs loop true do, plus every per-site choice of trailing expression vs `ret e` over the first 4 function bodies that end in an expression; plus 10 programs given as text with marked tail sites and call sites (inferred return types, an early `ret` of a value that says less than the trailing expression - payload-less variant of a generic enum, empty list, tuple of those -, closures returning closures, a function in a blob field, inferred-return recursion, four ill-typed ones), every choice at every site: all forms accepted with the same Lua, or all rejected; non-trivial = the base compiles; distinct by base text".into();
     run.bounds = json!({"bases": bases.len(), "call_sites_varied": ksites});
     run.assumptions = vec![
         "layout variants are compared byte for byte after masking digit runs inside the message string of `__CRASH(\"...\")` (the source line of a reached `<!>`)".into(),
@@ -324,6 +474,7 @@ pub fn replay(case: &serde_json::Value) -> Option<(String, String)> {
             if same { None } else { Some(("variant-changes-lua".into(), String::new())) }
         }
         (other, Outcome::Ok(_)) => Some(("variant-rejected".into(), other.short())),
+        (Outcome::Ok(_), _) => Some(("variant-accepted-but-canonical-rejected".into(), String::new())),
         _ => None,
     }
 }
